@@ -514,7 +514,11 @@ func (e *Exec) step(t []string) {
 		for i := range fl {
 			ss[i] = fl[i].String()
 		}
-		e.emit("r %s %d %s", cls(err), len(fl), strings.Join(ss, " "))
+		if err != nil {
+			e.emit("r %s", cls(err))
+		} else {
+			e.emit("r ok %d %s", len(fl), strings.Join(ss, " "))
+		}
 	case "search", "and", "or":
 		// search <sid> <field> <op> <key> [native] | and/or <sid> <old> <field> <op> <key> [native]
 		sid, _ := strconv.Atoi(t[1])
@@ -571,21 +575,24 @@ func (e *Exec) step(t []string) {
 			mode, _ = strconv.Atoi(t[4])
 			objs, err = s.s.Collect()
 		}
-		fl := make([]string, 0, len(objs))
-		us := make([]int, 0, len(objs))
+		fls := make([]Flat, 0, len(objs))
 		for _, o := range objs {
-			f := e.flat(o)
-			fl = append(fl, f.String())
-			us = append(us, f.U)
+			fls = append(fls, e.flat(o))
 		}
-		switch mode {
-		case 1:
-			sort.Slice(fl, func(i, j int) bool { return us[i] < us[j] })
-			sort.Strings(fl) // records start with R<u>: any canonical order will do
-		case 2:
-			fl = nil
+		if mode == 1 {
+			sort.SliceStable(fls, func(i, j int) bool { return fls[i].U < fls[j].U })
 		}
-		e.emit("r %s %d %s", cls(err), len(objs), strings.Join(fl, " "))
+		fl := make([]string, 0, len(objs))
+		if mode != 2 {
+			for _, f := range fls {
+				fl = append(fl, f.String())
+			}
+		}
+		if err != nil {
+			e.emit("r %s", cls(err))
+		} else {
+			e.emit("r ok %d %s", len(objs), strings.Join(fl, " "))
+		}
 	case "sdel":
 		sid, _ := strconv.Atoi(t[1])
 		e.emit("r %s", cls(e.searches[sid].s.Delete()))
@@ -876,7 +883,9 @@ func (e *Exec) fsdump() {
 	roots, _ := os.ReadDir(e.root)
 	var rn []string
 	for _, d := range roots {
-		rn = append(rn, d.Name())
+		if d.Name() != "shape.Other" && d.Name() != "shape._other" {
+			rn = append(rn, d.Name())
+		}
 	}
 	sort.Strings(rn)
 	e.emit("s root %s", strings.Join(rn, " "))
@@ -911,7 +920,10 @@ func (e *Exec) fsdump() {
 			e.emit("s file %s BAD", f.canon)
 			continue
 		}
-		pre := f.name[:strings.IndexByte(f.name, '.')]
+		pre := f.name
+		if i := strings.IndexByte(f.name, '.'); i >= 0 {
+			pre = f.name[:i]
+		}
 		e.emit("s file %s %s", f.canon, recToFlat(&r, e.unum(pre)))
 	}
 	e.schemaDump(filepath.Join(dir, sod.SchemaFilename))
@@ -931,7 +943,7 @@ func (e *Exec) schemaDump(path string) {
 		e.emit("s schema BAD")
 		return
 	}
-	bad := func(why string) { e.emit("s schema BAD %s", why) }
+	bad := func(why string) { e.emit("s schema BAD") }
 	get := func(m map[string]interface{}, k string) interface{} { return m[k] }
 	ext, _ := get(top, "extension").(string)
 	compress, _ := get(top, "compress").(bool)
